@@ -50,8 +50,11 @@ trusted = ["hand-written model MptModel/Impl/Reply.lean tied to mptcore/message/
            "outdata_recv.c/outdata_reply.c, stream_sync.c) and mpt++/io_stream.cpp are tied to Impl/Reply.lean (StreamIn, "
            "Requester incl. failing and re-entrant reply commands) and to the driver-level compositions conActs / conAnswer "
            "(Driver/Reply.lean: arm, handler acts, generic reply) by harness/drv_reply.c / drvxx_reply.cpp over socketpairs",
-           "NOT covered: mptio/output_remote.c (not part of any driver; remoteSync forwards to mpt_stream_sync), datagram "
-           "sockets with peer addresses, requester side (await/send) of a datagram connection, incomplete frames "
+           "mptio/output_remote.c is compiled into the driver's translation unit (its object type is private to the file): "
+           "`c open <w> remote|rdgram` runs every connection op through the output object's input/output interfaces, `c sync` "
+           "its sync (mpt_stream_sync resp. the datagram loop), `c probe` its conversions",
+           "NOT covered: datagram sockets with peer addresses (_smax != 0), the logger/property interfaces of the output "
+           "object beyond the probe, incomplete frames "
            "(stream_input.c streamDispatch read loop: property C02), allocation failure other than the two injected ones"]
 
 
@@ -188,6 +191,54 @@ def scripts(tier, seed, scale=1):
                 lines += ["c req %s41 ret:0" % mkr(w, first), "c send 7a", "c req %s42 ret:0" % mkr(w, n + 1), "c send 7b"]
                 lines += ["c await 5", "c req %s43 ret:0" % mkr(w, (first % n) + 1), "c send 7c", "c req %s44 ret:0" % mkr(w, first), "c close"]
                 out.append(("cfu:%d/%d/%d" % (w, n, first), lines))
+    # the connection inside an mpt_output_remote() object (mptio/output_remote.c; stream-backed `remote`, datagram socket
+    # `rdgram`), plain stream / datagram connections for comparison: requests with act lists, and the requester side
+    # (await, send, replies taken by `c sync` = mpt_stream_sync resp. the output's own datagram loop, and by dispatch) with
+    # replies in every order, duplicates, unknown ids, failing commands, datagrams that are no replies in between
+    for mode in ("remote", "rdgram"):
+        for w in (1, 2):
+            for seq in itertools.product(ACTS, repeat=2):
+                lines = ["c open %d %s" % (w, mode), "c probe"]
+                for k, idh in enumerate(ids(w)):
+                    lines.append("c req %s %s" % ((idh + ["7a", "", "6100", "00"][k % 4]) or "-", ",".join(seq)))
+                lines += ["c req %s discard" % ((i + "7a") or "-") for i in ids(w)]
+                lines += ["c dreply 0 4444", "c dreply 0 none", "c dreply 1 none", "c probe", "c close", "c dreply 2 46", "c probe"]
+                out.append(("co:%s/%d/%s" % (mode, w, "+".join(a.replace(":", "") for a in seq)), lines))
+    for mode in ("", " remote", " rdgram", " dgram"):
+        for w in (1, 2):
+            for n in (1, 2, 3):
+                for order in itertools.product(range(1, n + 2), repeat=min(n + 1, 3)):
+                    for via, base in (("sync", 10), ("sync1", 10), ("mixed", 10), ("sync1", 900010), ("req", 10)):
+                        if mode == " dgram" and via != "req":
+                            continue           # no sync function for a bare datagram connection
+                        if mode in ("", " dgram") and via == "req" and base == 10 and mode == "":
+                            continue           # covered by the cr: scripts
+                        lines = ["c open %d%s" % (w, mode)]
+                        for k in range(n):
+                            lines += ["c await %d" % (base + k), "c send %02x" % (0x61 + k)]
+                        frames = ["%s%02x" % (mkr(w, i), 0x41 + j) for j, i in enumerate(order)]
+                        if via == "sync":
+                            lines.append("c sync " + ",".join(frames))
+                        else:
+                            for j, fr in enumerate(frames):
+                                lines.append("c sync " + fr if via == "sync1" or (via == "mixed" and j % 2) else "c req %s ret:0" % fr)
+                        lines += ["c await 20", "c send 7a", "c sync %s55,%s56" % (mkr(w, 1), mkr(w, n + 1)) if mode != " dgram" else "c req %s55 ret:0" % mkr(w, 1),
+                                  "c await 21", "c send 7b", "c req %s05 reply:41" % gen.hexs([0] * (w - 1) + [3]), "c close"]
+                        out.append(("cs:%s/%d/%d/%s/%s%s" % (mode.strip() or "plain", w, n, "".join(map(str, order)), via, "F" if base > 10 else ""), lines))
+    # a datagram that is no reply while 1..9 commands wait (the output's sync reports how many)
+    for w in (1, 2):
+        for n in (1, 2, 3, 5, 9):
+            idh = gen.hexs([0] * (w - 1) + [5])
+            lines = ["c open %d rdgram" % w]
+            for k in range(n):
+                lines += ["c await %d" % (10 + k), "c send %02x" % (0x61 + k)]
+            lines += ["c sync %s77" % idh, "c sync %s41,%s78" % (mkr(w, n), idh), "c sync %s42,%s79" % (mkr(w, 1), idh), "c close"]
+            out.append(("cs:rdgram/wait/%d/%d" % (w, n), lines))
+    for w in (1, 2):
+        idh = gen.hexs([0] * (w - 1) + [5])
+        out.append(("cs:rdgram/mix/%d" % w, ["c open %d rdgram" % w, "c sync %s41" % mkr(w, 1), "c sync %s77" % idh, "c await 10", "c send 61", "c await 11", "c send 62",
+                                              "c sync %s41,%s77,%s42,%s,%s78" % (mkr(w, 1), idh, mkr(w, 2), "00" * w, idh), "c sync %s43" % mkr(w, 2),
+                                              "c sync %s44" % mkr(w, 2), "c send 63", "c sync -", "c sync", "c close", "c sync 8141"]))
     # the same over a datagram socket (connection_dispatch.c datagram branch, mpt_outdata_recv / mpt_outdata_reply):
     # every datagram one message, replies are datagrams; long replies (more than the 256-byte reply buffer)
     for w in (0, 1, 2, 9):
@@ -300,7 +351,7 @@ class _XX:
                 for order in itertools.product(range(1, n + 2), repeat=min(n + 1, 3)):
                     # tags from 900000 on: the reply command reports failure (returns -1) — the reply is still consumed
                     # and the command released, nothing is delivered twice by a later dispatch / sync
-                    for via, base in (("answer", 10), ("sync", 10), ("mixed", 10), ("sync", 900010), ("mixed", 900010), ("answer", 900010)):
+                    for via, base in (("answer", 10), ("sync", 10), ("mixed", 10), ("sync", 900010), ("mixed", 900010), ("answer", 900010), ("sync1", 10)):
                         if base > 10 and w == 8:
                             continue
                         lines = ["xr open %d" % w]
